@@ -8,7 +8,7 @@ CFG = dict(
     technique="Coq proof (newline table + partition point = scan specification, by induction over the text with an offset "
               "accumulator) + correspondence of the Gallina model with direct calls of get_line_pos_of_char_pos and with "
               "the violations / position markers of linted files under raw and placeholder templating",
-    level_text="C08_line_pos / C08_violation / C08_parse_error are closed Coq theorems for every text, offset and marker: the "
+    level_text="C08_line_pos / C08_violation / C08_parse_error / C08_in_file are closed Coq theorems for every text, offset and marker: the "
                "modelled lookup never panics and returns (1 + newlines before p, p - start of line + 1); a violation built "
                "by set_position_marker carries its marker's source range and the line/column of the start of that range "
                "in the source text; (line, column) is injective in the offset; parent markers keep ranges inside the file. "
@@ -16,8 +16,9 @@ CFG = dict(
                "source text with the model (vm_compute) and in plain Rust.",
     level_note="Trusted: Coq kernel; the model is hand-written (tie = sampled correspondence); slice::binary_search is modelled by "
                "its documented contract on a strictly increasing slice (the table is proved strictly increasing); the clause "
-               "'the range lies within the file' is proved only relative to the token ranges (C08_parent_range) - that token "
-               "ranges lie in the file is C15's map theorem - and is observed directly on every violation and marker.",
+               "'the range lies within the file' is C08_in_file: composition of C15's map theorem (token ranges inside the source), "
+               "C08_parent_range and C08_violation, for token markers and spans of tokens; markers of meta/fix-created segments are "
+               "outside it and the clause is also observed directly on every violation and marker.",
     rule="(linepos) random texts (0-60 bytes, newline density 0-90%, newline at start/end, runs of newlines; one third "
          "templated with a length/line-count changing value) x offsets 0, every newline and its neighbours, len, beyond len: "
          "real get_line_pos_of_char_pos(p, true|false) vs the model. (viol, marker) generated SQL files (19 skeletons with "
